@@ -339,9 +339,18 @@ def apply_sweep(ctx: Ctx):
                       broken='correspondence S-api apply_variants')
 
 
+def bg_accept(kind: str, what: str) -> bool:
+    return kind.startswith(('background_seq', 'refused', 'ref_range', 'mut_position', 'mave_nt_offset', 'row_columns:ref_start', 'row_columns:ref_end',
+                            'row_extra', 'row_missing'))
+
+
 def run(ctx: Ctx):
     sweep(ctx)
     apply_sweep(ctx)
+    # the consumers of the liftover in a run (get_gpo_ctx / get_ctx_seq_bg: the variants reach from_var_stats and apply_variants in the
+    # order the database returns them): designs whose background VCF lists its records in any order, against the pre-edited genome
+    from . import c06
+    c06.background_stage(ctx, ctx.n(50, 500), bg_accept, shuffle_bg=True)
     return {'rule': 'S-api: every (sampled in quick) sorted non-overlapping set of <=3 SNV/MNV/pure insertion/pure deletion of length <=3 in a context of 5-7 bases, '
                     'plus arbitrary (unsorted, tied, out-of-range, delins) sets; for each the full table of lookups (ref->alt with both nearest modes for every '
                     'position incl. outside, alt->ref, every sub-range with and without shrink, both overlap tests for lengths 0-3) from the real '
@@ -365,6 +374,14 @@ def replay(ctx: Ctx, path: str) -> int:
     with open(path) as fh:
         v = json.load(fh)
     c = v.get('case', {})
+    if c.get('via') == 'background_pair':
+        from . import c06
+        common.use_repo()
+        if c06.replay_background(ctx, c, bg_accept):
+            print(f'VIOLATION property=C05 replay={path}')
+            return 1
+        print('replay: property holds on this input now')
+        return 0
     common.use_repo()
     ctx.known = []
     if c.get('kind') == 'apply_variants' and 'variants' in c:
